@@ -227,7 +227,7 @@ Qed.
 Definition ex16_inp : input :=
   mkInput [] []
           [mkIVehicle (Some [1%Z]) [2%Z] 0%Z None None None None None [] 0%Z true true]
-          [] [[0%Z; 0%Z]; [0%Z; 0%Z]] [[0%Z; 0%Z]; [0%Z; 0%Z]] 1 ex_opts.
+          [] [[0%Z; 0%Z]; [0%Z; 0%Z]] [[0%Z; 0%Z]; [0%Z; 0%Z]] 1 ex_opts [].
 
 Example ex16_no_start_solution :
   new_solution ex16_inp = None /\ empty_route ex16_inp 0 = None /\
